@@ -112,13 +112,14 @@ package buffer
 // ---- casValidatingChunkReader: the same discipline for chunked sources.
 // A ChunkReader hands out chunks of its own; srcCount adds up their lengths.
 //@ iface ChunkReader.Read
-//@   modifies srcCount(self), srcEOF(self)
-//@   ensures err == nil ==> srcCount(self) == old(srcCount(self)) + len(result0)
-//@   ensures err != nil ==> srcCount(self) == old(srcCount(self))
+//@   modifies srcCount(self), srcEOF(self), crPos(self)
+//@   ensures err == nil ==> srcCount(self) == old(srcCount(self)) + len(result0) && crPos(self) == old(crPos(self)) + len(result0)
+//@   ensures err != nil ==> srcCount(self) == old(srcCount(self)) && crPos(self) == old(crPos(self)) && len(result0) == 0
 //@   ensures err == io.EOF ==> srcEOF(self) == 1
 //@   ensures err != io.EOF ==> srcEOF(self) == old(srcEOF(self))
 //@ iface ChunkReader.Close
-//@   modifies nothing
+//@   modifies crClosed(self)
+//@   ensures crClosed(self) == old(crClosed(self)) + 1
 
 //@ ghost vcBase(ref) int
 //@ pure vcSeen(r) = srcCount(r.ChunkReader) - vcBase(r)
